@@ -16,7 +16,7 @@ from AegeanTools import MIMAS
 from AegeanTools.catalogs import load_table
 from AegeanTools.regions import Region
 from vlib import refs
-from vlib.core import Res
+from vlib.core import Res, workdir
 
 PROP = "C10"
 SHARDS = {"quick": 8, "thorough": 16}
@@ -171,7 +171,7 @@ def check_image(c):
                 out = MIMAS.mask_plane(data, awcs, copy.deepcopy(region), negate=ng)
                 outs[ng] = [np.asarray(out)]
         else:
-            d_tmp = tempfile.mkdtemp(prefix="c10_")
+            d_tmp = workdir("c10_")
             nplanes = c["planes"]
             first = plane.copy()
             first[pre_nan] = np.nan              # only the first plane carries the input blanks
@@ -322,7 +322,7 @@ def check_table(c):
                 res.label("empty-table-file-skipped")     # an empty table cannot be written/read by all formats
                 out = MIMAS.mask_table(copy.deepcopy(region), tab.copy(), negate=negate, racol=racol, deccol=deccol)
             else:
-                d_tmp = tempfile.mkdtemp(prefix="c10t_")
+                d_tmp = workdir("c10t_")
                 ext = c["route"].replace("cli-", "")
                 infile = os.path.join(d_tmp, "in." + ext)
                 outfile = os.path.join(d_tmp, "out." + ext)
